@@ -534,15 +534,80 @@ def run(ctx: Ctx):
         ctx.stat(f"kind:{kind}")
         hist, kmax = rand_history(rng, d, rng.choice([5, 10, 20, 30, 30]))
         run_history(ctx, d, other_for(rng, d), hist, "random", kmax)
+    # ---- NFA side: fresh-copy oracle only
+    for _ in range(ctx.budget(250, 6000)):
+        nfa_history(ctx, rng)
+
+
+# ------------------------------------------------------------------ NFA side (oracle only, no model)
+def nfa_answer(n, other, q):
+    k = q["q"]
+    if k == "A":
+        return call(lambda: n.accepts_input(q["w"]))
+    if k == "EQ":
+        return call(lambda: n == other)
+    if k == "DET":
+        return call(lambda: L_dfa_sig(DFA.from_nfa(n)))
+    if k == "ELIM":
+        return call(lambda: sorted(w for w in q["ws"] if n.eliminate_lambda().accepts_input(w)))
+    if k == "READ":
+        return call(lambda: [sorted(map(repr, c)) for c in n.read_input_stepwise(q["w"], ignore_rejection=True)])
+    raise InfraError(f"unknown NFA query {q}")
+
+
+def L_dfa_sig(d: DFA):
+    """Language signature of a DFA result: accepted words up to length 4."""
+    sy = sorted(d.input_symbols)
+    return [w for w in gen.words_upto(sy, 4 if len(sy) <= 2 else 3) if d.accepts_input(w)]
+
+
+def nfa_history(ctx: Ctx, rng):
+    """The NFA half of the property (cached lambda closures): every answer on a long-lived NFA
+    must equal the answer on a fresh copy.  No Lean model here — sampled only."""
+    n = gen.rand_nfa(rng, 5)
+    sy = sorted(n.input_symbols)
+    other = rng.choice([n.copy(), gen.rand_nfa(rng, 4, alphabet=sy)])
+    inst = n.copy()
+    hist = []
+    for _ in range(rng.choice([4, 8, 12])):
+        r = rng.random()
+        if r < 0.5:
+            hist.append(dict(q="A", w=gen.rand_word(rng, sy, 6)))
+        elif r < 0.65:
+            hist.append(dict(q="READ", w=gen.rand_word(rng, sy, 5)))
+        elif r < 0.8:
+            hist.append(dict(q="EQ"))
+        elif r < 0.9:
+            hist.append(dict(q="DET"))
+        else:
+            hist.append(dict(q="ELIM", ws=[gen.rand_word(rng, sy, 5) for _ in range(4)]))
+    for i, q in enumerate(hist):
+        a = nfa_answer(inst, other, q)
+        f = nfa_answer(n.copy(), other, q)
+        ctx.case(None)
+        ctx.stat(f"nfa_q:{q['q']}")
+        if a != f:
+            what = (f"NFA call #{i} {q} after {i} earlier calls answered {str(a)[:120]}; "
+                    f"a fresh copy answers {str(f)[:120]}")
+            ctx.prop_fail(what, dict(kind="nfa", automaton=repr(n), other=repr(other), history=hist[: i + 1], what=what), None)
 
 
 def replay(ctx: Ctx, path: str) -> int:
     data = json.load(open(path))
     rp = data.get("replay", data)
-    env = {"DFA": DFA, "frozenset": frozenset}
+    from automata.fa.nfa import NFA
+    env = {"DFA": DFA, "NFA": NFA, "frozenset": frozenset}
     d = eval(rp["automaton"], env)
     other = eval(rp["other"], env)
-    run_history(ctx, d, other, rp["history"], "replay", 8)
+    if rp.get("kind") == "nfa":
+        inst = d.copy()
+        for i, q in enumerate(rp["history"]):
+            a = nfa_answer(inst, other, q)
+            f = nfa_answer(d.copy(), other, q)
+            if a != f:
+                ctx.prop_fail(f"NFA call #{i} {q}: {str(a)[:100]} vs fresh {str(f)[:100]}", rp, None)
+    else:
+        run_history(ctx, d, other, rp["history"], "replay", 8)
     if ctx.prop_fails:
         print(f"VIOLATION property=C20 replay={path}")
         print("  " + ctx.prop_fails[0]["what"])
